@@ -117,7 +117,7 @@ def run(ctx):
                     d, lo, hi, tname, "(%s)" % ", ".join(map(str, args)) if args else "", lo if not ok_lo else hi), case)
     # generated CIDs: columns, order, quoting, not null, decimal digits, text length
     names_pool = ["id", "customer", "select", "table", "order", "amount", "name", "user", "value", "date", "Level", "Key", "x1", "comment", "number", "size"]
-    n = 150 if ctx.tier == "quick" else 1500
+    n = 300 if ctx.tier == "quick" else 3000
     for _ in range(n):
         nf = rnd.randint(1, 6)
         names = rnd.sample(names_pool, nf)
@@ -126,7 +126,7 @@ def run(ctx):
             ty = rnd.choice(["Text", "Integer", "Decimal", "Choice", "DateTime", "Pattern"])
             f = {"name": name, "empty": rnd.random() < 0.4, "length": "", "type": ty, "rule": ""}
             if ty == "Text":
-                f["length"] = rnd.choice(["", "5", "1...20", "...30", "3..."])
+                f["length"] = rnd.choice(["", "5", "1...20", "...30", "3...", "0...10", "0, 3...5", "0...4"])
             elif ty == "Integer":
                 f["rule"] = "%d...%d" % (rnd.randint(-100, 0), rnd.randint(1, 10 ** rnd.randint(1, 12)))
             elif ty == "Decimal":
@@ -135,6 +135,7 @@ def run(ctx):
                 f["digits"] = (b + max(a, 1), max(a, 1))
             elif ty == "Choice":
                 f["rule"] = "a, b"
+                f["length"] = rnd.choice(["", "", "0...1", "1"])
             elif ty == "DateTime":
                 f["rule"] = "YYYY-MM-DD"
             else:
